@@ -463,6 +463,43 @@ def rule_exc(tk, F, may_throw, exc_ret, ret_type='HandledEnum'):
         out.append(t); i += 1
     return out
 
+def rule_scope_guard(tk, F, guards):
+    """GUARD: a local object of a scope-guard class `G name(args);` / `G name{args};` (G in `guards`, a dict class -> C function
+       standing for its destructor body, which is extracted from the header separately) is erased; its destructor call
+       `dtor(&(args));` is placed before every `return` of the rest of the enclosing block (including the `if (g_exc) return`
+       that rule EXC inserted: C++ unwinding runs the destructor) and at the end of that block.  The constructor must be trivial
+       apart from binding the reference (checked by a must_contain pattern of the unit).  Runs after EXC / TRY."""
+    out = list(tk); i = 0
+    while i < len(out):
+        t = out[i]
+        if str(t) in guards and i + 2 < len(out) and re.match(r'[A-Za-z_]\w*$', str(out[i + 1])) and str(out[i + 2]) in ('(', '{'):
+            opn = str(out[i + 2]); cls = ')' if opn == '(' else '}'
+            e = match_close(out, i + 2, opn, cls)
+            if str(out[e + 1]) != ';': raise Drift("GUARD: unsupported declaration of %s" % t)
+            args = out[i + 3:e]; L = t.line
+            dt = [T(x, L) for x in (guards[str(t)], '(', '&', '(')] + [T(str(x), L) for x in args] + [T(x, L) for x in (')', ')', ';')]
+            # end of the enclosing block
+            depth = 0; j = e + 2; end = len(out)
+            while j < len(out):
+                if str(out[j]) == '{': depth += 1
+                elif str(out[j]) == '}':
+                    if depth == 0: end = j; break
+                    depth -= 1
+                j += 1
+            rest = out[e + 2:end]; new = []; k = 0
+            while k < len(rest):
+                if str(rest[k]) == 'goto': raise Drift("GUARD: goto out of a guarded scope not supported")
+                if str(rest[k]) == 'return':
+                    q = k
+                    while str(rest[q]) != ';': q += 1
+                    if any(str(x) == '(' for x in rest[k + 1:q]): raise Drift("GUARD: return of a call expression inside a guarded scope not supported")
+                    new += [T('{', L)] + dt + rest[k:q + 1] + [T('}', L)]; k = q + 1; continue
+                new.append(rest[k]); k += 1
+            out = out[:i] + new + dt + out[end:]
+            F.hit('GUARD'); continue
+        i += 1
+    return out
+
 def rule_try(tk, F):
     """try { S } catch (std::exception& e) { H }  /  BOOST_TRY { S } BOOST_CATCH (...) { H } BOOST_CATCH_END
        ->  { S'  __catch: ; if (g_exc) { g_exc = 0; H } }   with S' = S where the inserted
